@@ -488,6 +488,8 @@ def check(ctx):
             o.witness((s_.ctx, kind))
     o.require(n_sites >= 6, f'only {n_sites} schedule_event sites with an action found')
     o.stats = {'attributes_read_from_actions': sorted({(f, a) for f, a, _ in reads})}
+    obs.append(ctx.shared('c16', 'C16.6', 'C15.6', 'a record carries the value of the part at that moment: for a batch that is the sum over its parts computed when read '
+                          '(a cached sum shows the value from before processing)'))
     return obs
 
 
